@@ -49,6 +49,10 @@ func genC29(seed uint64, tier string) any {
 	r := kit.NewRng(seed)
 	sc := &c29Scenario{Seed: seed}
 	sc.Version = []uint16{vTLS10, vTLS11, vTLS12, vTLS12}[r.Intn(4)]
+	if r.Chance(1, 5) {
+		// rarely used handshake versions: TLS 1.3 and beyond, a TLS 1.3 draft, a GREASE-like value
+		sc.Version = []uint16{0x0304, 0x0305, 0x7f1c, 0x7f17, 0x3a3a, 0x03ff}[r.Intn(6)]
+	}
 	switch r.Intn(4) {
 	case 0:
 		sc.Random = r.Bytes(32)
